@@ -391,6 +391,7 @@ func runC16(c *Ctx) {
 	// RemoveRules of the pool applies the builder's removal to the master and to every instance: what
 	// the queries and the executions see afterwards is what that removal leaves installed (shared with C08-H6)
 	c.ruleFullBuildAndRemoval("Q7-removal-reinstalls")
+	c.ruleQ8("Q8-installed-containers-complete")
 
 }
 
@@ -554,4 +555,73 @@ func (c *Ctx) ruleModelTable(rule string) {
 		c.Check(rule, key, okName && okArgs, ec.Pos(), "the pool method must call (*Gengine).%s (calls %s) with its own arguments in place %s", f.Name(), cal.Name(), why)
 	}
 	_ = strings.Join
+}
+
+// ruleQ8: whatever the pool installs as a rule container (the master's or an instance's
+// RuleBuilder.Kc) is a complete one: a container copied from another builder, the empty
+// container of base.NewKnowledgeContext(), or one built in the installing function with its
+// name map, sorted list and index all given. The parse-only container a compile step hands
+// back (name map only) is never installed as it is: its list and index do not exist yet, so
+// queries (name map) and executions / later merges (list, index) would disagree.
+func (c *Ctx) ruleQ8(rule string) {
+	n := 0
+	for _, f := range c.AllFns {
+		if f.Pkg == nil || f.Pkg.Pkg.Path() != pEngine {
+			continue
+		}
+		x := c.Index(f)
+		k := 0
+		eachInstr(f, func(in ssa.Instruction) {
+			st, ok := in.(*ssa.Store)
+			if !ok || !isKcFieldAddr(st.Addr) {
+				return
+			}
+			k++
+			n++
+			key := fmt.Sprintf("%s#install%d", fnName(f), k)
+			okAll := true
+			why := ""
+			for _, pv := range x.ValuesAt(st.Val, st) {
+				v := pv.V
+				if v == nil || pv.Outside {
+					okAll, why = false, "the zero value or a value assigned elsewhere"
+					continue
+				}
+				switch t := x.Origin(v).(type) {
+				case *ssa.UnOp:
+					if t.Op == token.MUL && isKcFieldAddr(t.X) {
+						continue // the container another builder holds
+					}
+					okAll, why = false, x.Describe(v)
+				case *ssa.Call:
+					if calleeIs(t, pBase, "", "NewKnowledgeContext") {
+						continue
+					}
+					okAll, why = false, "the result of "+x.Describe(v)
+				case *ssa.Alloc:
+					// built here: all three parts given
+					have := map[string]bool{}
+					for _, r := range *t.Referrers() {
+						if fa, isFA := r.(*ssa.FieldAddr); isFA {
+							for _, r2 := range *fa.Referrers() {
+								if s2, isSt := r2.(*ssa.Store); isSt && s2.Addr == ssa.Value(fa) {
+									have[fieldOf(fa).Name()] = true
+								}
+							}
+						}
+					}
+					if !(have["RuleEntities"] && have["SortRules"] && have["SortRulesIndexMap"]) {
+						okAll, why = false, "a container built without its name map, sorted list and index all given"
+					}
+				default:
+					okAll, why = false, x.Describe(v)
+				}
+			}
+			c.Check(rule, key, okAll, st.Pos(), "the pool installs %s as a rule container: only a container held by another builder, the empty container, or one built here with name map, sorted list and index may be installed", orStr(why, "a complete container"))
+		})
+	}
+	if n == 0 {
+		c.Lost(rule, "stores of RuleBuilder.Kc in package engine")
+	}
+	c.Min(rule, 4)
 }
